@@ -907,10 +907,19 @@ class Merger:
         # Merge into each insertion point
         merge_performed = False
         lhs_proc = Processor(self.logger, self.data)
+        merged_targets: List[Any] = []
         for node_coord in self._get_merge_target_nodes(
             insert_at, lhs_proc, rhs
         ):
             target_node = node_coord.node
+            if (isinstance(target_node, (CommentedMap, CommentedSeq,
+                                         CommentedSet))
+                    and any(target_node is done for done in merged_targets)):
+                # The same Hash, Array, or Set reached again through an
+                # Alias:  it has had its merge (a second one would feed the
+                # result into itself)
+                continue
+            merged_targets.append(target_node)
             Parsers.set_flow_style(
                 rhs, (target_node.fa.flow_style()
                       if hasattr(target_node, "fa")
